@@ -61,6 +61,11 @@ pub struct FileOpts {
     /// the file starts with a comment line of this many characters (source positions >= 2^16)
     #[serde(default)]
     pub pad_comment: usize,
+    /// plain head: nothing before the first `.orig`, which is written `.orig xNNNN`, and the first
+    /// statement carries a label on its own line start — files of one set then share their first bytes,
+    /// so their first labels sit at the same source position
+    #[serde(default)]
+    pub plain_head: bool,
 }
 
 #[derive(Clone, Debug)]
@@ -249,6 +254,9 @@ pub fn gen_file(r: &mut Rng, o: &FileOpts) -> GenFile {
             sts.push(St { labels: vec![format!("T{}_{}", local_n, o.id)], k: K::LabelOnly });
             local_n += 1;
         }
+        if o.plain_head && blocks.is_empty() && !sts.is_empty() && sts[0].labels.is_empty() {
+            sts[0].labels.push(format!("H{}", o.id % 10));
+        }
         if let Some((hb, hn)) = o.huge {
             if hb == blocks.len() && room - hn as i64 >= 0 {
                 sts.push(St { labels: vec![format!("HUGE_{}", o.id)], k: K::Blkw(hn) });
@@ -370,7 +378,7 @@ pub fn gen_file(r: &mut Rng, o: &FileOpts) -> GenFile {
         let name = recase(r, e, 2);
         let nb = blocks.len();
         // a file without any block can only declare its externals at top level
-        let place = if nb == 0 { 0 } else { place };
+        let place = if nb == 0 { 0 } else if o.plain_head && place == 0 { 2 } else { place };
         let d = match place {
             0 => ExtDecl { name, inside: None, outside_before_block: Some(0) },
             2 => {
@@ -412,7 +420,7 @@ pub fn gen_file(r: &mut Rng, o: &FileOpts) -> GenFile {
         let c = format!("; {}", "-".repeat(o.pad_comment));
         push_line(&mut text, &mut line_no, &c);
     }
-    if r.chance(1, 3) {
+    if !o.plain_head && r.chance(1, 3) {
         let c = comment(r, o.exotic);
         push_line(&mut text, &mut line_no, &c);
     }
@@ -426,10 +434,15 @@ pub fn gen_file(r: &mut Rng, o: &FileOpts) -> GenFile {
             break;
         }
         let (orig, sts) = &blocks[b];
-        if r.chance(1, 4) {
+        let plain_here = o.plain_head && b == 0;
+        if !plain_here && r.chance(1, 4) {
             push_line(&mut text, &mut line_no, if r.bool() { "" } else { "   \t " });
         }
-        let l = format!("{}{} x{:04X}{}", if r.bool() { "" } else { "  " }, recase(r, ".orig", mode), orig, if r.chance(1, 4) { format!(" {}", comment(r, o.exotic)) } else { String::new() });
+        let l = if plain_here {
+            format!(".orig x{:04X}", orig)
+        } else {
+            format!("{}{} x{:04X}{}", if r.bool() { "" } else { "  " }, recase(r, ".orig", mode), orig, if r.chance(1, 4) { format!(" {}", comment(r, o.exotic)) } else { String::new() })
+        };
         push_line(&mut text, &mut line_no, &l);
         let mut a = *orig;
         let mut len = 0u16;
@@ -445,7 +458,7 @@ pub fn gen_file(r: &mut Rng, o: &FileOpts) -> GenFile {
                 see_label(lb, &mut spelling);
                 obj.labels.entry(lb.to_uppercase()).or_insert((a, false));
                 let colon = if r.bool() { ":" } else { "" };
-                if r.chance(1, 3) {
+                if !(plain_here && i == 0) && r.chance(1, 3) {
                     push_line(&mut text, &mut line_no, &format!("{lb}{colon}"));
                 } else {
                     prefix.push_str(&format!("{lb}{colon} "));
